@@ -68,12 +68,19 @@ func genC03(x *Ctx) *c03Scen {
 		maxRoutes = 24
 	}
 	crowdSegs := []string{"a", "{v}", "{v:[0-9]+}", "{v:[a-z]+}"}
+	deep := !crowded && tp.Chance(60)
+	if deep {
+		maxRoutes = 10
+	}
 	tp.Repeat(1, maxSvc, 650, func(i int) {
 		sp := SvcSpec{ID: i, Root: roots[perm[i]], Dynamic: true}
 		seen := map[string]bool{}
 		minRoutes, more := 1, 700
 		if crowded && i == 0 {
 			minRoutes, more = 10, 900
+		}
+		if deep && i == 0 {
+			minRoutes, more = 3, 850
 		}
 		tp.Repeat(minRoutes, maxRoutes, more, func(int) {
 			depth := tp.Range(0, 3)
@@ -84,6 +91,19 @@ func genC03(x *Ctx) *c03Scen {
 			if crowded && i == 0 {
 				depth = 2
 				segs = []string{crowdSegs[tp.G(4)], crowdSegs[tp.G(4)]}
+			}
+			if deep && i == 0 {
+				// deep templates: 8-12 segments, literals with a variable here and there, so that static
+				// and parameter counts cross the one-digit boundary
+				depth = tp.Range(8, 12)
+				segs = nil
+				for d := 0; d < depth; d++ {
+					if tp.Chance(200) {
+						segs = append(segs, "{v}")
+					} else {
+						segs = append(segs, "a")
+					}
+				}
 			}
 			if depth > 0 && sc.Router == "curly" && tp.Chance(150) {
 				// custom verb on the last segment (CurlyRouter only): /jobs/{id}:run next to /jobs/all:run
